@@ -4,3 +4,4 @@ import PtGen.Children
 import PtGen.ChildrenWitness
 import PtGen.Distribute
 import PtGen.Dtypes
+import PtGen.ApiNames
